@@ -18,6 +18,9 @@
 #include "vfs.hh"
 #include "vsim.hh"
 
+extern "C" int __real_close(int);
+extern "C" ssize_t __real_write(int, const void*, size_t);
+
 using namespace vsim;
 using std::string;
 
@@ -322,6 +325,103 @@ static void scen_real_pipe() {
   set_context("");
 }
 
+// The FILE* helpers on a stdio stream that sits on a REAL descriptor (fdopen over a kernel pipe, or a
+// temporary regular file): fileno() is valid here, and glibc has usually read ahead, so the stream's position
+// and the descriptor's position differ. Whatever the caller consumed through stdio before, read_all(FILE*)
+// must return exactly the rest of the stream.
+static void scen_real_FILE() {
+  count("scenario.real_FILE");
+  size_t size = draw_size("Q.size");
+  if (size > 60000) size = 60000; // must fit the pipe without a reader
+  string D = gen_content(size, choose(1 << 16, "Q.content"));
+  for (auto& ch : D)
+    if (ch == 0) ch = 'x';
+  unsigned nl = choose(6, "Q.newlines");
+  for (unsigned i = 0; i < nl && !D.empty(); i++) D[choose_range(0, D.size() - 1, "Q.newline.at")] = '\n';
+  bool regular = choose(3, "Q.kind") == 2;
+  FILE* f = nullptr;
+  if (regular) {
+    f = tmpfile();
+    if (!f) harness_bug("tmpfile failed");
+    if (!D.empty() && ::fwrite(D.data(), 1, D.size(), f) != D.size()) harness_bug("tmpfile fill failed");
+    rewind(f);
+  } else {
+    int pfd[2];
+    if (pipe(pfd)) harness_bug("pipe failed");
+    size_t off = 0;
+    while (off < D.size()) {
+      ssize_t w = __real_write(pfd[1], D.data() + off, D.size() - off);
+      if (w <= 0) harness_bug("pipe fill failed");
+      off += w;
+    }
+    __real_close(pfd[1]);
+    f = fdopen(pfd[0], "r");
+    if (!f) harness_bug("fdopen failed");
+  }
+  size_t mode = pick({0, 0, 1, 16, 255, 4096}, "Q.buffering");
+  if (mode == 1) setvbuf(f, nullptr, _IONBF, 0);
+  else if (mode > 1) setvbuf(f, nullptr, _IOFBF, mode);
+  mark_nontrivial();
+  note(string("stdio stream over a real ") + (regular ? "temporary file" : "pipe") + " holding " + std::to_string(size) + " bytes, buffering mode " + std::to_string(mode));
+  size_t pos = 0;
+  unsigned npre = choose(4, "Q.npre");
+  for (unsigned i = 0; i < npre && !failed(); i++) {
+    string rem = D.substr(pos);
+    unsigned op = choose(3, "Q.pre.op");
+    try {
+      if (op == 0) {
+        set_context("fgets(FILE*)/real_fd");
+        ev("op.fgets_real", pos);
+        string line = phosg::fgets(f);
+        size_t e = rem.find('\n');
+        string want = e == string::npos ? rem : rem.substr(0, e + 1);
+        if (line != want) fail(string("fgets/") + diff_kind(line, want), "real_fd", "fgets on a stdio stream over a real descriptor: " + describe_diff(line, want));
+        pos += line.size();
+      } else if (op == 1) {
+        size_t n = choose(2, "Q.pre.n.kind") ? draw_size("Q.pre.n") : 1 + choose(16, "Q.pre.n.small");
+        set_context("fread(FILE*,n)/real_fd");
+        ev("op.fread_real", pos, n);
+        string r = phosg::fread(f, n);
+        string want = rem.substr(0, n);
+        if (r != want) fail(string("fread/") + diff_kind(r, want), "real_fd", "fread on a stdio stream over a real descriptor: " + describe_diff(r, want));
+        pos += r.size();
+      } else {
+        size_t n = rem.empty() ? 0 : choose_range(0, std::min<size_t>(rem.size(), 300), "Q.pre.nx");
+        set_context("freadx(FILE*,n)/real_fd");
+        ev("op.freadx_real", pos, n);
+        string r = phosg::freadx(f, n);
+        if (r != rem.substr(0, n)) fail(string("freadx/") + diff_kind(r, rem.substr(0, n)), "real_fd", "freadx on a stdio stream over a real descriptor: " + describe_diff(r, rem.substr(0, n)));
+        pos += r.size();
+      }
+    } catch (const std::exception& e) {
+      fail("read_helpers/threw_without_fault", "real_fd", string("a FILE* helper threw on a healthy stdio stream over a real descriptor: ") + e.what());
+    }
+  }
+  if (!failed()) {
+    string rem = D.substr(pos);
+    set_context("read_all(FILE*)/real_fd");
+    ev("op.read_all_real", pos);
+    string r;
+    bool threw = false;
+    try {
+      r = phosg::read_all(f);
+    } catch (const std::exception& e) {
+      threw = true;
+      fail("read_all_file/threw_without_fault", "real_fd", string("read_all(FILE*) threw on a healthy stdio stream over a real descriptor: ") + e.what());
+    }
+    if (!threw) {
+      hash_bytes(r.data(), r.size());
+      if (r != rem) {
+        fail(string("read_all_file/") + diff_kind(r, rem), pos ? "after_buffered_reads" : "real_fd",
+            "read_all(FILE*) after " + std::to_string(pos) + " bytes were consumed through stdio did not return the rest of the stream: " + describe_diff(r, rem));
+      }
+      if (pos && !rem.empty()) VS_PROBE("read_all_file.real_fd_buffered");
+    }
+  }
+  fclose(f);
+  set_context("");
+}
+
 static void scen_stream_file() {
   count("scenario.stream_FILE");
   size_t size = draw_size("S.size");
@@ -563,6 +663,23 @@ static void expect_no_fd_leak(const char* api) {
   if (vfs::world().calls.double_close || vfs::world().calls.ebadf) fail(string(api) + "/double_close", "close", string(api) + " closed a descriptor twice or used a closed one");
 }
 
+// Another process replaces the file by rename() while load_file holds it open: the descriptor still names
+// the OLD file, the path names the NEW one. Fires from the path-based stat()/lstat() wrappers, i.e. only
+// if the code under test asks the path again after opening it.
+static string g_replace_path, g_replace_content;
+static unsigned g_replace_fired = 0;
+static void replace_hook() {
+  if (g_replace_fired || g_replace_path.empty()) return;
+  bool is_open = false;
+  for (auto& kv : vfs::world().fds)
+    if (kv.second.is_open && kv.second.path == g_replace_path) is_open = true;
+  if (!is_open) return;
+  g_replace_fired++;
+  vfs::mkfile(g_replace_path, g_replace_content);
+  VS_FAULT("file_replaced_while_open");
+  ev("race.rename_over", g_replace_content.size());
+}
+
 static void scen_files() {
   count("scenario.files");
   size_t size = draw_size("B.size");
@@ -606,6 +723,13 @@ static void scen_files() {
     ev("op.load_file", size);
     // sometimes another process truncates the file between load_file's fstat() and its read()
     if (choose(6, "B.truncate_race") == 5) vfs::world().faults.truncate_race = (uint32_t)pick({1, 2}, "B.truncate_race.rate");
+    g_replace_fired = 0;
+    g_replace_path.clear();
+    if (choose(6, "B.rename_race") == 5) {
+      g_replace_path = path;
+      g_replace_content = gen_content(choose(2, "B.rename_race.longer") ? size + 1 + choose(5000, "B.rename_race.extra") : size / 2, 79);
+      vfs::world().between_dir_calls = replace_hook;
+    }
     string r;
     try {
       r = phosg::load_file(path);
@@ -614,6 +738,19 @@ static void scen_files() {
       what = e.what();
     }
     vfs::world().faults.truncate_race = 0;
+    vfs::world().between_dir_calls = nullptr;
+    g_replace_path.clear();
+    if (g_replace_fired) {
+      // the call saw two files under one name: either file's complete contents or a throw are right, a
+      // mixture (the old file cut or padded to the new file's size) is not
+      if (!threw && r != D && r != g_replace_content) {
+        fail(string("load_file/") + diff_kind(r, D), "replaced_while_open", "the file was replaced by rename while load_file had it open; load_file returned " + std::to_string(r.size()) +
+                " bytes that are neither the old file (" + std::to_string(D.size()) + " bytes) nor the new one (" + std::to_string(g_replace_content.size()) + " bytes): " + describe_diff(r, D));
+      }
+      expect_no_fd_leak("load_file");
+      set_context("");
+      return;
+    }
     if (c.truncations) {
       // the file changed under the call: throwing is fine, returning the file's present contents is fine,
       // returning bytes the file never held (padding) is not
@@ -891,6 +1028,7 @@ static const char* NAME_POOL[] = {"a", "b", "c", ".hidden", "with space", "-dash
 struct TreeGen {
   std::vector<string> all_paths; // every created path (files and dirs)
   unsigned budget = 40;
+  unsigned links = 0;
 };
 
 static void gen_tree(const string& dir, unsigned depth, TreeGen& tg) {
@@ -906,8 +1044,31 @@ static void gen_tree(const string& dir, unsigned depth, TreeGen& tg) {
     if (!used.insert(name).second) continue;
     tg.budget--;
     string p = dir + "/" + name;
-    unsigned what = choose(8, "D.isdir");
-    if (depth < 4 && what >= 6) {
+    unsigned what = choose(10, "D.isdir");
+    if (what >= 8) {
+      // a symbolic link: to a directory outside the tree, to a file outside, to the tree's own root (a loop),
+      // to nowhere, or to a directory created earlier inside the tree
+      string target;
+      switch (choose(5, "D.link.target")) {
+        case 0: target = "/sim/keep"; break;
+        case 1: target = "/sim/keep/k1"; break;
+        case 2: target = "/sim/tree"; break;
+        case 3: target = "/sim/nowhere/at/all"; break;
+        default: {
+          std::vector<string> inside;
+          for (auto& q : tg.all_paths) {
+            auto qn = vfs::lookup(q);
+            if (qn && qn->kind == vfs::Kind::DIR) inside.push_back(q);
+          }
+          target = inside.empty() ? string("/sim/keep/sub") : inside[choose(inside.size(), "D.link.inside")];
+          break;
+        }
+      }
+      vfs::mksymlink(p, target);
+      tg.all_paths.push_back(p);
+      tg.links++;
+      VS_PROBE("tree_with_symlink");
+    } else if (depth < 4 && what >= 6) {
       tg.all_paths.push_back(p);
       gen_tree(p, depth + 1, tg);
     } else {
@@ -995,6 +1156,8 @@ static void scen_dirs() {
     ev("op.list_directory", want.size());
     std::set<string> got_set;
     size_t got_count = 0;
+    // errno is whatever an earlier, unrelated call left behind: a caller never clears it for the library
+    errno = (int)pick({0, ENOENT, EINTR, EBADF}, "D.stale_errno");
     try {
       auto got = phosg::list_directory(ldir);
       got_count = got.size();
@@ -1009,6 +1172,7 @@ static void scen_dirs() {
     set_context("list_directory_sorted");
     std::vector<string> want_sorted(want.begin(), want.end());
     std::vector<string> got_sorted;
+    errno = (int)pick({0, EAGAIN, ENOTDIR}, "D.stale_errno.sorted");
     try {
       got_sorted = phosg::list_directory_sorted(ldir);
     } catch (const std::exception& e) {
@@ -1058,6 +1222,7 @@ static void scen_dirs() {
   ev("op.unlink_recursive", targets.size(), arm);
   bool threw = false;
   string what;
+  errno = (int)pick({0, ENOENT, EACCES}, "D.stale_errno.unlink");
   try {
     phosg::unlink(target, true);
   } catch (const std::exception& e) {
@@ -1080,6 +1245,7 @@ static void scen_dirs() {
   }
   for (auto& p : survivors)
     if (!vfs::exists(p)) fail("unlink_recursive/removed_outside", "plain", "unlink(" + target + ", true) removed " + p + " which is not below it");
+  if (vfs::snapshot("/sim/keep") != keep_before && tg.links) fail("unlink_recursive/removed_outside", "through_symlink", "unlink(" + target + ", true) removed or changed entries of /sim/keep, which is outside the tree and only pointed to by a symbolic link inside it: the link must be removed, not followed");
   if (!vfs::exists("/sim/treex")) fail("unlink_recursive/removed_outside", "sibling_prefix", "unlink removed a sibling whose name merely starts with the target's name");
   if (vfs::snapshot("/sim/keep") != keep_before) fail("unlink_recursive/removed_outside", "other_tree", "unlink changed an unrelated tree");
   if (vfs::open_fd_count()) fail("unlink_recursive/fd_leak", "leak", "descriptor left open");
@@ -1357,7 +1523,10 @@ static void run() {
   vfs::reset();
   // the caller's FILE* may be unbuffered or have a tiny buffer: chunking then reaches the library's loops
   vfs::set_stdio_buffering(pick({0, 0, 1, 16, 255, 256, 4096}, "stdio.buffering"));
-  switch (choose(9, "scenario")) {
+  // a caller never clears errno for the library: it is whatever an earlier, unrelated call left behind
+  set_entry_errno((int)pick({0, 0, EINTR, EAGAIN, ENOENT, EBADF, ENOSPC, ERANGE}, "env.errno_on_entry"));
+  switch (choose(10, "scenario")) {
+    case 9: scen_real_FILE(); break;
     case 8: scen_real_pipe(); break;
     case 0: scen_stream_fd(); break;
     case 1: scen_stream_file(); break;
@@ -1381,7 +1550,7 @@ int main(int argc, char** argv) {
   e.quick_cap_s = 120;
   e.thorough_cap_s = 1500;
   e.rule =
-      "one run = one scenario (descriptor stream, real pipe with staggered writer, FILE* stream, line reader, whole files, exact-size I/O, directory tree, scoped_fd history, Poll history) "
+      "one run = one scenario (descriptor stream, real pipe with staggered writer, FILE* stream, stdio stream over a real descriptor, line reader, whole files, exact-size I/O, directory tree, scoped_fd history, Poll history) "
       "with sizes, contents, chunking, fault plan and operation sequence drawn from the seed; distinct = distinct hash of the event log "
       "(every kernel call with its result, every library call); non-trivial = at least one fault fired, delivery was chunked, a line exceeded the "
       "256-byte block, a tree had more than one entry, or the run is a scoped_fd/Poll history";
@@ -1394,10 +1563,13 @@ int main(int argc, char** argv) {
       {"glibc stdio", "real"},
       {"kernel: descriptors, regular files, pipes-like streams, directories, poll readiness", "stub: vsim/vfs.cc behind -Wl,--wrap and fopencookie"},
       {"kernel pipe in the real_pipe scenario", "real pipe; its writer is the simulator (one drawn chunk before each read of the library)"},
-      {"concurrent deleter process", "stub: task scheduled between the library's directory calls"}};
+      {"stdio stream over a real descriptor (real_FILE scenario)", "real glibc stdio over a real kernel pipe or temporary file, filled before the call"},
+      {"concurrent deleter / replacer process", "stub: task scheduled between the library's path-based calls"}};
   e.expected_probes = {"read_all_fd.saw_short_read", "read_all_fd.crossed_16k_block", "read_all_file.error_mid_stream", "read_all_file.crossed_16k_block",
       "fgets.line_longer_than_block", "fgets.line_longer_than_two_blocks", "fgets.line_exactly_block", "readx.threw_on_short", "save_file.threw_on_write_fault",
-      "load_file.threw_on_read_fault", "unlink.threw_on_eacces", "scoped_fd.move_assign_over_open", "scoped_fd.failed_open", "poll.readd_existing", "poll.remove_present", "read_all_fd.real_pipe", "read_helpers_on_regular_file", "tree_with_fifo", "scoped_fd.holds_descriptor_0", "load_file.file_truncated_concurrently"};
+      "load_file.threw_on_read_fault", "unlink.threw_on_eacces", "scoped_fd.move_assign_over_open", "scoped_fd.failed_open", "poll.readd_existing", "poll.remove_present", "read_all_fd.real_pipe", "read_helpers_on_regular_file", "tree_with_fifo", "tree_with_symlink", "scoped_fd.holds_descriptor_0", "load_file.file_truncated_concurrently", "read_all_file.real_fd_buffered"};
   e.expected_faults = {"short_read", "short_write", "EIO@read", "EINTR@read", "ENOSPC@write", "EINTR@write", "EINTR@poll", "EACCES@unlink", "EACCES@rmdir", "concurrent_delete", "ENOSPC@capacity", "EINTR@close", "staggered_pipe_write", "EAGAIN@read", "concurrent_truncate"};
+  // "file_replaced_while_open" fires only when the code under test asks the PATH again after opening it;
+  // the repository's load_file uses fstat() on the descriptor, so on the unchanged tree the counter stays 0
   return driver_main(argc, argv, e);
 }
